@@ -1291,7 +1291,11 @@ def part_front(chk, T, runner, jobs):
                {"inputFile": "A.pdf", "outputFile": "out.pdf", "overlay": {"file": "O.pdf"}, "rotate": "+90", "addAttachment": {"file": "att.txt"}},
                {"pages": [{"file": "B.pdf"}], "inputFile": "A.pdf", "outputFile": "out.pdf"}, "x", [], {"encrypt": {"Bits": "x"}}):
         cases.append(("json", jv, False))
-    for w in (["--version"], ["--help"], ["--qdf"], ["A.pdf"], [], ["--show-crypto", "x"], ["--", "A.pdf", "--", "out.pdf"], ["-", "out.pdf"]):
+    for w in (["--version"], ["--help"], ["--qdf"], ["A.pdf"], [], ["--show-crypto", "x"], ["--", "A.pdf", "--", "out.pdf"], ["-", "out.pdf"],
+              # theorem encrypt_password_memory: a later --encrypt without password options is given the passwords of the earlier one
+              ["A.pdf", "out.pdf", "--encrypt", "--user-password=u1", "--owner-password=o1", "--bits=256", "--", "--encrypt", "--bits=128", "--"],
+              ["A.pdf", "out.pdf", "--encrypt", "--bits=256", "--"], ["A.pdf", "out.pdf", "--encrypt", "--owner-password=o", "--bits=256", "--"],
+              ["A.pdf", "out.pdf", "--encrypt", "u", "o", "256", "--", "--encrypt", "--bits=128", "--"]):
         cases.append(("argv", w))
     files = ",".join(hexs(f) for f in POOL)
     mlines = []
